@@ -140,6 +140,114 @@ def sym_pair(ctx, cfg):
     return None, ha
 
 
+VEC_HEADER = """From Coq Require Import List ZArith Bool PeanoNat.
+Import ListNotations.
+From KT Require Import Lifecycle LSym BayesSym.
+(* trials are identified by their index (V = Vec = nat); the stubbed predict answers 100000 + index *)
+Definition mkt (i : nat) (st : status) (sc : option Z) : @trial nat Z :=
+  {| t_status := st; t_score := option_map (@SVal Z) sc; t_runs := 0; t_data := i |}.
+Definition ys (mx : bool) (nf : option nat) (len : nat) (ts : list (@trial nat Z)) : list (nat * option Z) :=
+  map (fun p => (fst p, match snd p with SVal z => Some z | SNaN => None end))
+      (vectorize Z.opp (fun (_ : unit) v => v) (fun _ => len) (fun (_ : unit) => nf) (fun _ v => SVal (100000 + Z.of_nat v)%Z) mx tt tt ts).
+Definition vec_ok (c : bool * option nat * nat * list (nat * status * option Z) * list (nat * option Z)) : bool :=
+  let '(mx, nf, len, ts, want) := c in
+  let got := ys mx nf len (map (fun t => mkt (fst (fst t)) (snd (fst t)) (snd t)) ts) in
+  Nat.eqb (length got) (length want) &&
+  forallb (fun p => Nat.eqb (fst (fst p)) (fst (snd p)) && match snd (fst p), snd (snd p) with Some a, Some b => Z.eqb a b | None, None => true | _, _ => false end) (combine got want).
+Definition cases : list (bool * option nat * nat * list (nat * status * option Z) * list (nat * option Z)) := [
+"""
+VEC_FOOTER = "\n].\nEval vm_compute in (map vec_ok cases).\n"
+
+
+def vectorize_cases(ctx, n):
+    """BayesianOptimizationOracle._vectorize_trials on states reached by real worker-pool histories vs BayesSym.vectorize.
+    The Gaussian process is replaced by a stub whose predict identifies the trial it is asked about (through the value of a
+    huge Int entry) and answers 100000 + trial index; scores are distinct integers, so the y column shows which trials entered
+    the training set, in which order and with which sign."""
+    import numpy as np, tempfile, shutil, warnings
+    import keras_tuner as kt
+    from keras_tuner.engine import hyperparameters as hpm
+    from keras_tuner.tuners import bayesian
+    warnings.filterwarnings("ignore")
+    terms = []; infos = []; py_fail = []
+    for k in range(n):
+        seed = ctx.rng.randint(0, 2 ** 40); rng = random.Random(seed)
+        hps = hpm.HyperParameters()
+        hps.Int("x", 0, 10 ** 9)
+        if rng.random() < 0.6: hps.Choice("m", ["u", "v"])
+        if rng.random() < 0.5 and "m" in hps.values:
+            with hps.conditional_scope("m", ["u"]): hps.Int("k", 1, 3)
+        if rng.random() < 0.4: hps.Fixed("f", 7)
+        if rng.random() < 0.4: hps.Float("y", 0.0, 1.0)
+        direction = rng.choice(["min", "max"])
+        d = tempfile.mkdtemp(prefix="ktv04v_")
+        try:
+            o = bayesian.BayesianOptimizationOracle(objective=kt.Objective("score", direction), max_trials=40, num_initial_points=1000, seed=rng.randint(1, 10 ** 6),
+                                                    hyperparameters=hps, max_retries_per_trial=rng.choice([0, 1]), max_consecutive_failed_trials=99)
+            o._set_project_dir(d, "p"); o._display.verbose = 0
+            held = {}; W = rng.randint(1, 4)
+            for _ in range(rng.randint(4, 30)):
+                tn = "w%d" % rng.randrange(W)
+                if tn in held and rng.random() < 0.7:
+                    t = held.pop(tn); r = rng.random()
+                    if r < 0.65:
+                        o.update_trial(t.trial_id, {"score": float(7 * int(t.trial_id) + 3 - 40)}); t.status = "COMPLETED"
+                    else:
+                        t.status = "INVALID" if r < 0.85 else "FAILED"
+                    o.end_trial(t)
+                elif tn not in held:
+                    t = o.create_trial(tn)
+                    if t.status == "RUNNING": held[tn] = t
+            ids = list(o.trials)                       # the order _vectorize_trials walks
+            xs = {o.trials[i].hyperparameters.values["x"]: j for j, i in enumerate(ids)}
+            hx = o.hyperparameters.space[0]
+            nonfixed = o._nonfixed_space()
+            nf_mode = rng.choice(["absent", "match", "other"])
+
+            class Stub:
+                calls = 0
+                def predict(self, x, return_std=False):
+                    Stub.calls += 1
+                    j = xs[hx.prob_to_value(float(x[0][0]))]
+                    return np.array([100000.0 + j]), np.array([0.0])
+            stub = Stub()
+            if nf_mode == "match": stub.n_features_in_ = len(nonfixed)
+            if nf_mode == "other": stub.n_features_in_ = len(nonfixed) + 1
+            o.gpr = stub
+            x, y = o._vectorize_trials()
+            trials = [(j, o.trials[i].status, o.trials[i].score) for j, i in enumerate(ids)]
+            # python-side: rows of x are the vectors of the trials that y identifies
+            want = []
+            for row, yy in zip(x, y):
+                j = xs[hx.prob_to_value(float(row[0]))]
+                want.append((j, int(round(float(yy)))))
+            if len(x) != len(y):
+                py_fail.append("x has %d rows, y %d entries" % (len(x), len(y)))
+            nf = None if nf_mode == "absent" else len(nonfixed) if nf_mode == "match" else len(nonfixed) + 1
+            stc = lambda s: s if s in ("RUNNING", "COMPLETED", "FAILED", "INVALID") else "IDLE"
+            terms.append("(%s, %s, %s, %s, %s)" % (emit.b(direction == "max"), emit.opt(nf, emit.nat), emit.nat(len(nonfixed)),
+                         emit.cl("(%s, %s, %s)" % (emit.nat(j), stc(st), emit.opt(None if sc is None else int(sc), emit.z)) for j, st, sc in trials),
+                         emit.cl("(%s, Some %s)" % (emit.nat(j), emit.z(v)) for j, v in want)))
+            infos.append(dict(seed=seed, direction=direction, nfeat=nf_mode, trials=[(j, st, None if sc is None else float(sc)) for j, st, sc in trials], y=want))
+        finally:
+            lc._release(o); shutil.rmtree(d, ignore_errors=True)
+    verdicts, errors, wall = runcoq.run_cases(ctx.workdir, VEC_HEADER, terms, VEC_FOOTER, chunk=100, prefix="vec")
+    fails = []
+    for path, rc, err in errors:
+        fails.append(Failure("harness", "C04/coqc", "coqc failed on %s: %s" % (path, err[-300:]), {"correspondence": "C04 vectorize", "file": path}))
+    for m in py_fail[:1]:
+        fails.append(Failure("violation", "C04/bayes-training-set", m, {"note": "regenerated from the run seed"}))
+    nd = 0
+    for j, v in enumerate(verdicts):
+        if v != "true":
+            nd += 1
+            if nd <= 2:
+                fails.append(Failure("diff", "C04/vectorize-model-vs-impl", "BayesSym.vectorize and BayesianOptimizationOracle._vectorize_trials disagree: %r" % (infos[j],),
+                                     {"correspondence": "BayesSym.v vs BayesianOptimizationOracle._vectorize_trials", "case": infos[j]}))
+    return fails, dict(vec_cases=n, vec_diffs=nd, vec_coqc_wall_s=round(wall, 1), vec_rows=sum(len(i["y"]) for i in infos),
+                       vec_ongoing_rows=sum(1 for i in infos for (j, v) in i["y"] if v >= 100000))
+
+
 def run(ctx):
     rng = ctx.rng
     n = ctx.n(1500, 20000)
@@ -207,10 +315,13 @@ def run(ctx):
         stats["sym_by_kind"][cfg["kind"]] = stats["sym_by_kind"].get(cfg["kind"], 0) + 1
         if msg:
             failures.append(Failure("violation", "C04/direction-symmetry", "%s oracle: %s" % (cfg["kind"], msg), {"cfg": cfg, "ops": ha["ops"]}))
+    vf, vstats = vectorize_cases(ctx, ctx.n(60, 600))
+    failures.extend(vf); stats.update(vstats)
     stats["diffs"] = ndiff; stats["coqc_wall_s"] = round(wall, 1)
-    return dict(evaluations=n + npairs, distinct_nontrivial=nontriv, traces_validated=n - ndiff,
+    return dict(evaluations=n + npairs + vstats["vec_cases"], distinct_nontrivial=nontriv, traces_validated=n - ndiff,
                 rule="(a) trial sets of 0-9 trials with statuses COMPLETED/RUNNING/INVALID/FAILED, scores from a small pool (ties), negatives, +-inf, NaN on "
                      "non-completed trials, n from 1 to beyond the number of trials, installed in a real oracle and ranked by get_best_trials; "
+                     "(c) the training set the Bayesian oracle builds (_vectorize_trials with a stubbed GP on states reached by worker-pool histories) vs BayesSym.vectorize; "
                      "(b) two-run monitor: the same seeded worker-pool history on each of the four oracles once with (max, s) and once with (min, -s); "
                      "non-trivial = distinct set with >= 2 completed trials",
                 samples=[dict(case=cases[0], impl=outs[0]), dict(case=cases[1], impl=outs[1])], failures=failures, stats=stats)
